@@ -5,7 +5,6 @@ import copy
 import itertools
 import random
 import re
-import signal
 
 from harness import core, gristenv as G, schedtrace as ST
 from harness.props import c06 as K2
@@ -39,22 +38,7 @@ LEVEL_NOTE = K2.LEVEL_NOTE
 CRE = ['E', 'CircularRefError']
 
 
-class Timeout(Exception):
-  pass
-
-
-def _alarm(_s, _f):
-  raise Timeout()
-
-
-def limited(fn, seconds=20):
-  old = signal.signal(signal.SIGALRM, _alarm)
-  signal.alarm(seconds)
-  try:
-    return fn()
-  finally:
-    signal.alarm(0)
-    signal.signal(signal.SIGALRM, old)
+Timeout, limited = ST.Timeout, ST.limited
 
 
 # ---- dependency graphs over $col references ---------------------------------------------------------------
@@ -168,6 +152,8 @@ def search_graphs(ctx):
       if bad:
         ctx.violation(bad[0], bad[1], {'stream': 'graph', 'graph': [list(x) for x in graph], 'd': dvals, 'pseed': pseed})
         break
+    if sum(1 for v in ctx.violations if v['kind'] == 'internal') >= 4:
+      return
   if ctx.tier == 'thorough':
     search_graphs4(ctx, dvals)
 
@@ -320,6 +306,8 @@ def search_progs(ctx):
     bad = run_prog(w)
     if bad:
       ctx.violation(bad[0], bad[1], w)
+    if sum(1 for v in ctx.violations if v['kind'] == 'internal') >= 8:
+      return
 
 
 # ---- robustness stream: a column that is (transitively) the key of its own lookup ------------------------------
